@@ -32,7 +32,7 @@ def m_from_string(ev, args, kw, node):
         return Obj("Signature", "malformed", (), {"text": s, "parsed": None, "__isinstance__": ("_GridUFuncSignature",)})
     ins, outs = p
     return Obj("Signature", s, (), {
-        "text": s, "parsed": p, "__isinstance__": ("_GridUFuncSignature",),
+        "text": s, "parsed": p, "__isinstance__": ("_GridUFuncSignature",), "__class__": "grid_ufunc:_GridUFuncSignature",  # str(), equivalent() ... are the real methods
         "in_ax_names": [tuple(n for n, _ in a) for a in ins], "in_ax_positions": [tuple(q for _, q in a) for a in ins],
         "out_ax_names": [tuple(n for n, _ in a) for a in outs], "out_ax_positions": [tuple(q for _, q in a) for a in outs],
     })
